@@ -192,6 +192,40 @@ pub fn run(run: &Run) {
         }
         true
     });
+    {
+        let mut labels = super::pipe::zwnj_huge_run_labels(&[]);
+        labels.extend(super::pipe::huge_whole_label_labels(&[]));
+        super::pipe::battery(run, "huge_labels", &labels, &|s, l| {
+            for c in [Class::Id, Class::Ff] {
+                if let Err(v) = check(&c, s, l) {
+                    run.violate(v);
+                    return false;
+                }
+            }
+            true
+        });
+    }
+    // all labels of length <= 9 over {dual-joining letter, transparent mark, ZWNJ, 'a', virama}: several joiners in one label whose
+    // immediate neighbourhoods coincide while their wider contexts differ
+    super::pipe::enum_strings(run, "enum_joiner5", &['\u{628}', '\u{651}', '\u{200c}', 'a', '\u{94d}'], run.pick(9, 10), &|s, l| {
+        for c in [Class::Id, Class::Ff] {
+            if let Err(v) = check(&c, s, l) {
+                run.violate(v);
+                return false;
+            }
+        }
+        true
+    });
+    // and over the whole-label families with a second member of the same row
+    super::pipe::enum_strings(run, "enum_rows7", &['\u{661}', '\u{6f3}', '\u{30fb}', '\u{30a2}', 'a', '\u{66e}', '\u{6fa}'], run.pick(6, 7), &|s, l| {
+        for c in [Class::Id, Class::Ff] {
+            if let Err(v) = check(&c, s, l) {
+                run.violate(v);
+                return false;
+            }
+        }
+        true
+    });
     // every code point that is not valid in the class right after / before the nearest valid code point below it and above it
     // (validation shortcuts that trust the neighbourhood of an accepted character)
     run.par("nearest_valid_neighbour_pairs", true, |tid, n, l| {
@@ -249,6 +283,20 @@ pub fn run(run: &Run) {
         })
     };
     run.prop("random_user_classes", run.pick(500_000, 10_000_000), mk_user, |(c, s), l| check(c, s, l));
+    // user classes over the contextual code points AND the other members of their rows / their numeric neighbours, with labels that
+    // concentrate on a few characters of the alphabet (a rule found for one member of a row must not vouch for another member)
+    let mk_rows = || {
+        let alphabet: Vec<char> = [0x61u32, 0x6c, 0xb6, 0xb7, 0xb8, 0x200b, 0x200c, 0x200d, 0x200e, 0x374, 0x375, 0x376, 0x3b1, 0x5d0, 0x5f2, 0x5f3, 0x5f4, 0x5f5, 0x30a2, 0x30f7, 0x30fa, 0x30fb, 0x30fc, 0x30ff, 0x65f, 0x660, 0x661,
+            0x669, 0x66a, 0x66e, 0x66f, 0x6ef, 0x6f0, 0x6f3, 0x6f9, 0x6fa, 0x6ff, 0x94d, 0x626, 0x3042].iter().map(|c| char::from_u32(*c).unwrap()).collect();
+        let n = alphabet.len();
+        let val = prop_oneof![4 => Just(0u8), 2 => Just(3u8), 3 => Just(4u8), 1 => 0u8..7];
+        (vec(val, n), vec(0..n, 2..=5), vec(0usize..64, 0..=7)).prop_map(move |(vals, focus, picks)| {
+            let map: Vec<(char, Dpv)> = alphabet.iter().zip(vals.iter()).map(|(c, v)| (*c, Dpv::from_u8(*v))).collect();
+            let label: String = picks.iter().map(|p| if *p < 56 { alphabet[focus[*p * focus.len() / 56]] } else { alphabet[(*p - 56) * n / 8] }).collect();
+            (Class::User(UserClass { map, default: Dpv::PValid }), label)
+        })
+    };
+    run.prop("random_user_classes_row_neighbours", run.pick(1_000_000, 20_000_000), mk_rows, |(c, s), l| check(c, s, l));
 }
 
 pub fn replay(_run: &Run, case: &Value) -> Check {
